@@ -280,7 +280,7 @@ func compareMatches(t []int, exp []ExpMatch, got []MatchJ, replace bool, noret b
 		if _, ok := d["num"]; !ok && e.N != g.N {
 			d["num"] = fmt.Sprintf("match %d: expected matchNumber %d, got %d", i, e.N, g.N)
 		}
-		if _, ok := d["loc"]; !ok && (e.LS != g.LS || e.LE != g.LE || e.CS != g.CS || e.CE != g.CE) {
+		if _, ok := d["loc"]; !ok && (e.LS != g.LS || e.LE != g.LE || (isASCII(t) && (e.CS != g.CS || e.CE != g.CE))) {
 			d["loc"] = fmt.Sprintf("match %d: expected line [%d,%d] column [%d,%d], got line [%d,%d] column [%d,%d]", i, e.LS, e.LE, e.CS, e.CE, g.LS, g.LE, g.CS, g.CE)
 		}
 		if _, ok := d["val"]; !ok && !intsEq(g.Val, t[e.S:e.E]) {
